@@ -52,6 +52,9 @@ CLAIMED = {
  "C20": ("fault enumeration + T: panic injected at enumerated (operator, replica, element) points of acyclic jobs; CrashCheck.tla judges hosts' outcomes and sinks against the execution graph",
          "for each crash point: execute_blocking must fail on the host of the failed replica and on every host running a downstream block, no StreamOutput sink fed from the failed block or downstream may publish, and every worker thread must unwind within 6 s",
          "collect_channel / for_each stream by contract and are excluded; downstream = reachability in the dumped execution graph", "4-C20"),
+ "C15": ("M+R: TLC model check of comp/FileSplit, CsvSplit, RangeSplit (+ Apalache for 64-bit limits in thorough); every enumerated file/range run through the real sources; SourceProps judged by TLC (SourceCheck.tla)",
+         "every file over {x, LF, CRLF} up to a length bound for 1..6 replicas and every small range for 1..6 peers of all ten integer types (plus near-limit tables) is run on the real FileSource/CsvSource/IntoParallelSource; TLC evaluates exactly-once/partition predicates on the real per-replica output; the finite spaces are enumerated completely",
+         "TLC integers are 32 bit: near-limit values reach TLC through an order-preserving map; CSV quoted newlines are outside the property", "4-C15"),
 }
 
 def main():
